@@ -42,6 +42,7 @@ Extensions:
 from __future__ import absolute_import, print_function
 from fnmatch import fnmatchcase
 import glob
+import re
 # -- INJECT: Cucumber TagExpression model classes
 from cucumber_tag_expressions.model import Expression, Literal, And, Or, Not, True_
 
@@ -134,7 +135,10 @@ class Matcher(Expression):
         return False
 
     def __str__(self):
-        return self.pattern
+        # -- ESCAPE: Like Literal, otherwise the text cannot be parsed again.
+        text = self.pattern.replace("\\", "\\\\")
+        text = text.replace("(", "\\(").replace(")", "\\)")
+        return re.sub(r"(\s)", r"\\\1", text)
 
     def __repr__(self):
         return "Matcher('%s')" % self.pattern
